@@ -460,12 +460,16 @@ bool encode_array::prepare(size_t len)
 	if (_enc) {
 		return false;
 	}
+	if (!len) {
+		return true;
+	}
+	// reserve space behind stored data
 	size_t old = _d.length();
-	if (!_d.set(old + len)) {
+	if (!_d.append(len)) {
 		return false;
 	}
-	_d.set(old);
-	return true;
+	array::content *c = const_cast<array::content *>(_d.data());
+	return c->set_length(old);
 }
 span<const uint8_t> encode_array::data() const
 {
